@@ -211,7 +211,8 @@ fn late_failure(kind: u8, at: u8, len: u8) -> (String, MType, Box<dyn Fn(&mut Se
     fn add<T: scylla_cql_core::serialize::value::SerializeValue + 'static>(v: T) -> Box<dyn Fn(&mut SerializedValues, &ColumnType) -> Result<(), String>> {
         Box::new(move |sv, ct| sv.add_value(&v, ct).map_err(|e| e.to_string()))
     }
-    match kind % 9 {
+    // kinds 250.. were added later; the older ones keep their numbering (replay files store the raw byte)
+    match if kind >= 250 { 9 + (kind - 250) % 2 } else { kind % 9 } {
         0 => (format!("Vec<CqlValue> of {len} ints with a text at {at} into list<int>"), MType::List(Box::new(nat(Nat::Int))), add(ints_with_text())),
         1 => (format!("CqlValue::Set of {len} ints with a text at {at} into set<int>"), MType::Set(Box::new(nat(Nat::Int))), add(CqlValue::Set(ints_with_text()))),
         2 => (
@@ -243,6 +244,26 @@ fn late_failure(kind: u8, at: u8, len: u8) -> (String, MType, Box<dyn Fn(&mut Se
             format!("Vec<i32> of {len} elements into vector<int,{}>", len + 1),
             MType::Vector(Box::new(nat(Nat::Int)), len as u16 + 1),
             add((0..len as i32).collect::<Vec<i32>>()),
+        ),
+        9 => (
+            "CqlValue UDT with a null field the column's type does not have".into(),
+            MType::Udt { keyspace: "ks".into(), name: "u2".into(), fields: vec![("a".into(), nat(Nat::Int)), ("b".into(), nat(Nat::Text))] },
+            add(CqlValue::UserDefinedType {
+                keyspace: "ks".into(),
+                name: "u2".into(),
+                fields: vec![("a".into(), Some(CqlValue::Int(1))), ("zz".into(), None), ("b".into(), Some(CqlValue::Text("x".into())))],
+            }),
+        ),
+        10 => (
+            format!("list of {len} CqlValue UDTs, the one at {at} with a null field the element type does not have"),
+            MType::List(Box::new(MType::Udt { keyspace: "ks".into(), name: "u1".into(), fields: vec![("a".into(), nat(Nat::Int))] })),
+            add((0..len)
+                .map(|i| CqlValue::UserDefinedType {
+                    keyspace: "ks".into(),
+                    name: "u1".into(),
+                    fields: if i == at { vec![("a".into(), Some(CqlValue::Int(1))), ("zz".into(), None)] } else { vec![("a".into(), Some(CqlValue::Int(i as i32)))] },
+                })
+                .collect::<Vec<_>>()),
         ),
         _ => (
             "CqlValue UDT with a field the column's type does not have".into(),
@@ -611,7 +632,7 @@ fn op() -> impl Strategy<Value = Op> {
     prop_oneof![
         4 => (any::<u16>(), any::<u16>(), any::<u16>()).prop_map(|(c, k, seed)| Op::Typed { c, k, accept: true, seed }),
         3 => (any::<u16>(), any::<u16>(), any::<u16>()).prop_map(|(c, k, seed)| Op::Typed { c, k, accept: false, seed }),
-        3 => (any::<u8>(), any::<u8>(), any::<u8>()).prop_map(|(kind, at, len)| Op::LateFailure { kind, at, len }),
+        3 => (prop_oneof![9 => any::<u8>(), 2 => 250u8..=255], any::<u8>(), any::<u8>()).prop_map(|(kind, at, len)| Op::LateFailure { kind, at, len }),
         1 => any::<u8>().prop_map(|kind| Op::Overflow { kind }),
         2 => (any::<u16>(), any::<u16>()).prop_map(|(k, seed)| Op::Dynamic { k, seed }),
     ]
@@ -625,7 +646,7 @@ pub fn run(ctx: &Ctx, rep: &mut Report) {
     LEVELS.store(ctx.tier.pick(2, 3), std::sync::atomic::Ordering::SeqCst);
     let tb = tables();
     rep.rule = format!(
-        "matrix (exhaustive): {} Rust carrier types (every leaf type the driver implements the value traits for - std, value::*, chrono, time, num-bigint 0.3/0.4, bigdecimal, secrecy, a derived UDT struct - alone and inside Option / Vec / Vec<Vec> / HashSet / BTreeSet / HashMap / BTreeMap / tuples / Box / Arc / MaybeEmpty, plus borrowed and serialize-only forms) x {} column types (20 natives; 20 one-level collections/tuples/UDTs/vectors per native; a second level over the lists, sets, vectors, maps and tuples; the thorough tier adds a third level). Per cell: a fully populated witness value is bound through SerializedValues::add_value after two earlier values and through a whole row (i32, T); DeserializeValue::type_check and the row (i32, T) type_check are called (the latter also against rows of 0, 1 and 3 columns, which never fit a 2-tuple). The relation Accept/Reject/Unspecified is derived from docs/source/data-types (Unspecified - HashSet/BTreeSet for a list column, a Rust tuple shorter than the column's - may go either way). Accepted binds must decode (reference decoder) to the witness; refused binds must leave bytes and count untouched; element_count() == iter().count() == the parsed cell count always. empties (exhaustive): CqlValue::Empty at every position (top level, collection element, map key/value, tuple/UDT field, recursively) of a fitting dynamic value for every column type - refused where the position's type has no separate empty representation (counter, duration, list, set, map, UDT), accepted as a zero-length cell elsewhere (strings and blobs unjudged). vector_elements (exhaustive): Vec<Option<X>> / Vec<MaybeUnset<X>> / CqlValue::Vector holding a null / unset / Empty element at every position of 1..4-dimensional vectors of int, bigint, boolean, double, text, blob - must be refused (vector elements are written back to back; there is no encoding for a hole), the full vector must be accepted. histories: 1..24 binds into one SerializedValues - typed witnesses into accepted / rejected columns, values failing after part of them was written (a mistyped element at position k of a list/set/vector/map, a later tuple or UDT field, an inner list, a wrong vector dimension, an unknown UDT field), conversion overflows (BigDecimal exponent, leap-second NaiveTime), dynamic values; 2% of histories start 0..3 values short of 65 535 so that the 65 536th is attempted. Non-trivial = (matrix) a rejected pair with a nested column type; (histories) a failure after a partial write with other values present.",
+        "matrix (exhaustive): {} Rust carrier types (every leaf type the driver implements the value traits for - std, value::*, chrono, time, num-bigint 0.3/0.4, bigdecimal, secrecy, a derived UDT struct - alone and inside Option / Vec / Vec<Vec> / HashSet / BTreeSet / HashMap / BTreeMap / tuples / Box / Arc / MaybeEmpty, plus borrowed and serialize-only forms) x {} column types (20 natives; 20 one-level collections/tuples/UDTs/vectors per native; a second level over the lists, sets, vectors, maps and tuples; the thorough tier adds a third level). Per cell: a fully populated witness value is bound through SerializedValues::add_value after two earlier values and through a whole row (i32, T); DeserializeValue::type_check and the row (i32, T) type_check are called (the latter also against rows of 0, 1 and 3 columns, which never fit a 2-tuple). The relation Accept/Reject/Unspecified is derived from docs/source/data-types (Unspecified - HashSet/BTreeSet for a list column, a Rust tuple shorter than the column's - may go either way). Accepted binds must decode (reference decoder) to the witness; refused binds must leave bytes and count untouched; element_count() == iter().count() == the parsed cell count always. empties (exhaustive): CqlValue::Empty at every position (top level, collection element, map key/value, tuple/UDT field, recursively) of a fitting dynamic value for every column type - refused where the position's type has no separate empty representation (counter, duration, list, set, map, UDT), accepted as a zero-length cell elsewhere (strings and blobs unjudged). vector_elements (exhaustive): Vec<Option<X>> / Vec<MaybeUnset<X>> / CqlValue::Vector holding a null / unset / Empty element at every position of 1..4-dimensional vectors of int, bigint, boolean, double, text, blob - must be refused (vector elements are written back to back; there is no encoding for a hole), the full vector must be accepted. histories: 1..24 binds into one SerializedValues - typed witnesses into accepted / rejected columns, values failing after part of them was written (a mistyped element at position k of a list/set/vector/map, a later tuple or UDT field, an inner list, a wrong vector dimension, an unknown UDT field with a value or null), conversion overflows (BigDecimal exponent, leap-second NaiveTime), dynamic values; 2% of histories start 0..3 values short of 65 535 so that the 65 536th is attempted. Non-trivial = (matrix) a rejected pair with a nested column type; (histories) a failure after a partial write with other values present.",
         tb.carriers.len(),
         tb.types.len()
     );
